@@ -3,6 +3,8 @@ CONSTANTS
   MinN = 0
   MaxN = 6
   TwinMaxN = 5
+  GeoMaxN = 4
+  GeoFilter = "none"
   RetMaxN = 5
   TruthTest = "truthy"
 CONSTRAINT Export
